@@ -1,2 +1,140 @@
-(* Model for C15 — to be written. Executable definitions only, no proofs. *)
-From WI Require Import Lib.Base Lib.Info.
+(* Model of internal/names/x500.go (rendering of distinguished names) for C15.
+   Executable definitions only, no proofs.  The RFC 4514 reader that the property is stated
+   against is in Lib/Rfc4514.v and is independent of this file.
+
+   A [variant] selects the code before/after each repair made for C15, so that the
+   pre-repair behaviour stays available for the `_refuted` theorems:
+     v_nul  : NUL is written \00                     (fix: escapeRDNAttrValue, F31c)
+     v_plus : the ATVs of one RDN are joined by '+'  (fix: FromRDNSequence, F31d)
+     v_hex  : non-string values are written #<hex DER> instead of fmt's %!s(...) (F31b)
+   (F31 changed the regenerated table, F31e/F31f the decoding step that precedes this model.)
+   [current] is the code as it is now. *)
+From WI Require Import Lib.Base Lib.Info Lib.Utf8.
+From WI Require gen.X500Names.
+Open Scope N_scope.
+
+Record variant := mkvariant { v_nul : bool; v_plus : bool; v_hex : bool }.
+Definition original : variant := mkvariant false false false.
+Definition current : variant := mkvariant true true true.
+
+(* ---------- asn1.ObjectIdentifier.String(): decimal arcs joined by '.' ---------- *)
+Fixpoint bytes_of_uint (u : Decimal.uint) : bytes :=
+  match u with
+  | Decimal.Nil => []
+  | Decimal.D0 r => 48 :: bytes_of_uint r
+  | Decimal.D1 r => 49 :: bytes_of_uint r
+  | Decimal.D2 r => 50 :: bytes_of_uint r
+  | Decimal.D3 r => 51 :: bytes_of_uint r
+  | Decimal.D4 r => 52 :: bytes_of_uint r
+  | Decimal.D5 r => 53 :: bytes_of_uint r
+  | Decimal.D6 r => 54 :: bytes_of_uint r
+  | Decimal.D7 r => 55 :: bytes_of_uint r
+  | Decimal.D8 r => 56 :: bytes_of_uint r
+  | Decimal.D9 r => 57 :: bytes_of_uint r
+  end.
+Definition dec_N (n : N) : bytes := bytes_of_uint (N.to_uint n).
+
+Definition oid : Type := list N.
+Definition dotted (o : oid) : bytes := join [46] (map dec_N o).
+
+(* ---------- x500AttrTypeFromOID (x500.go:124-129): the table, else the dotted form ---------- *)
+Definition name_table : Type := list (oid * bytes).
+Fixpoint lookup_name (t : name_table) (o : oid) : option bytes :=
+  match t with
+  | [] => None
+  | (k, n) :: r => if bytes_eqb k o then Some n else lookup_name r o
+  end.
+Definition attr_name_in (t : name_table) (o : oid) : bytes :=
+  match lookup_name t o with Some n => n | None => dotted o end.
+Definition x500_names : name_table := X500Names.x500_names.
+Definition attr_name : oid -> bytes := attr_name_in x500_names.
+
+(* ---------- escapeRDNAttrValue (x500.go:94-122) ----------
+   `for k, c := range s`: k is the BYTE index of the rune, c the rune (U+FFFD, width 1, for
+   invalid UTF-8); `k == len(s)-1` is a byte-index test; the result is string([]rune). *)
+Definition always_escaped (c : N) : bool :=
+  (c =? 44) || (c =? 43) || (c =? 34) || (c =? 92) || (c =? 60) || (c =? 62) || (c =? 59).
+Definition escape_here (len k : nat) (c : N) : bool :=
+  always_escaped c
+  || ((c =? 32) && (Nat.eqb k 0 || Nat.eqb k (len - 1)))
+  || ((c =? 35) && Nat.eqb k 0).
+Fixpoint escape_runes (nul : bool) (len : nat) (rs : list (nat * bool * N * nat)) : bytes :=
+  match rs with
+  | [] => []
+  | (k, _, c, _) :: rest =>
+      (if nul && (c =? 0) then [92; 48; 48]
+       else if escape_here len k c then 92 :: encode_rune c else encode_rune c)
+      ++ escape_runes nul len rest
+  end.
+Definition escape_gen (nul : bool) (s : bytes) : bytes := escape_runes nul (length s) (runes s).
+
+(* utf8.ValidString: every rune of the range loop is a valid encoding *)
+Definition valid_utf8 (s : bytes) : bool :=
+  forallb (fun x => match x with (_, v, _, _) => v end) (runes s).
+
+(* ---------- attribute values as Go values (pkix.AttributeTypeAndValue.Value is `any`) ---------- *)
+Inductive govalue : Type :=
+| GStr (s : bytes)                       (* string *)
+| GInt (z : Z)                           (* int64 (ASN.1 INTEGER) *)
+| GNil                                   (* nil: a type encoding/asn1 does not decode *)
+| GOther (printed marshal : bytes).      (* any other Go value (asn1.RawValue: marshal = its DER;
+                                            []byte, OID, time ...): what fmt's %s and asn1.Marshal
+                                            give for it, as recorded by the harness *)
+
+(* fmt.Sprintf("%s", v) *)
+Definition sprintf_s (v : govalue) : bytes :=
+  match v with
+  | GStr s => s
+  | GInt z => bs "%!s(int64=" ++ dec_of_Z z ++ bs ")"
+  | GNil => bs "%!s(<nil>)"
+  | GOther p _ => p
+  end.
+
+(* asn1.Marshal(v) of an int64: INTEGER, minimal two's complement; error (no bytes) for nil *)
+Fixpoint int_len (fuel : nat) (n : nat) (z : Z) : nat :=
+  match fuel with
+  | O => n
+  | S f => if ((- 2 ^ (8 * Z.of_nat n - 1) <=? z) && (z <? 2 ^ (8 * Z.of_nat n - 1)))%Z then n
+           else int_len f (S n) z
+  end.
+Definition int64_der (z : Z) : bytes :=
+  let n := int_len 8 1 z in
+  2 :: N.of_nat n :: N_to_be n (Z.to_N (z mod 2 ^ (8 * Z.of_nat n))%Z).
+Definition marshal (v : govalue) : bytes :=
+  match v with
+  | GStr s => []          (* not used: strings are escaped, not marshalled *)
+  | GInt z => int64_der z
+  | GNil => []
+  | GOther _ m => m
+  end.
+
+Definition render_value (var : variant) (v : govalue) : bytes :=
+  if v_hex var then
+    match v with
+    | GStr s => escape_gen (v_nul var) s
+    | _ => 35 :: hex_of false (marshal v)
+    end
+  else escape_gen (v_nul var) (sprintf_s v).
+
+(* ---------- FromRDNSequence (x500.go:68-84) and rdnAttrValue (x500.go:86-92) ---------- *)
+Definition atv : Type := (oid * govalue)%type.
+Definition render_atv (var : variant) (t : name_table) (a : atv) : bytes :=
+  attr_name_in t (fst a) ++ [61] ++ render_value var (snd a).
+Definition nonempty {A} (l : list A) : bool := match l with [] => false | _ => true end.
+Definition render_dn_gen (var : variant) (t : name_table) (rdns : list (list atv)) : bytes :=
+  if v_plus var then
+    join [44] (map (fun r => join [43] (map (render_atv var t) r)) (filter nonempty (rev rdns)))
+  else
+    join [44] (flat_map (map (render_atv var t)) (rev rdns)).
+Definition render_dn : list (list atv) -> bytes := render_dn_gen current x500_names.
+
+(* ---------- FromRawDN (x500.go:13-19): the ASN.1 decoding of the name (parseRawDN, x500.go:32-66: encoding/asn1 into
+   RDNs whose values are Go strings for the six string types and asn1.RawValue, i.e. the DER
+   itself, for anything else) is the library's; [parsed] is what it returned (None: error,
+   trailing bytes or an ill-formed string -> hex of the whole input) ---------- *)
+Definition from_raw_dn_gen (var : variant) (t : name_table) (dn : bytes) (parsed : option (list (list atv))) : bytes :=
+  match parsed with
+  | Some rdns => render_dn_gen var t rdns
+  | None => hex_of false dn
+  end.
+Definition from_raw_dn := from_raw_dn_gen current x500_names.
